@@ -50,6 +50,84 @@ CHECKS = {
     ),
 }
 
+WF_ASSUME = UNIVERSAL_ASSUME + [
+    "well-formed = derivations of the grammar G (harness/src/grammar.txt) and the seed programs of the repository's data tests that the reference scanner finds lexically sound and bracket balanced",
+]
+
+CHECKS.update({
+    "C02": dict(
+        level="exploration",
+        rule="every derivation of grammar G with at most d deviations from the default productions (simplest first), in base "
+             "layouts L0/L1/L2 and (where stated) every single gap flip, every comment of 7 kinds in every gap in 3 placements, "
+             "every statement/declaration subtree wrapped in 3 conditional-directive shapes; plus the well-formed seed programs; "
+             "x configurations. Output re-scanned with R and compared token by token modulo the documented normalisations. "
+             "Distinct by construction; non-trivial = formatter changed the text",
+        bounds={"quick": "progs(d<=2) x {L0,L1,L2} x 6 configs; progs(d<=1) x all variants x 3 configs; wf seeds x 6 configs",
+                "thorough": "progs(d<=3) x {L0,L1,L2} x 3 configs; progs(d<=2) x all variants x 6 configs; progs(d<=2) x covering array; wf seeds x covering array"},
+        assumptions=WF_ASSUME,
+    ),
+    "C03": dict(
+        level="exploration",
+        rule="same program space as C02; oracle format(format(x)) == format(x) byte for byte, third pass run to classify; "
+             "non-trivial = first pass changed the text",
+        bounds={"quick": "progs(d<=2) x {L0,L1,L2} x 6 configs; progs(d<=1) x all variants x 3 configs; wf seeds x 6 configs",
+                "thorough": "progs(d<=3) x bases x 3 configs; progs(d<=2) x all variants x 6 configs; progs(d<=2) x covering array; wf seeds x covering array"},
+        assumptions=WF_ASSUME + ["a violation accompanied by the hook counter stale_child_cache_hits > 0 that converges on the second pass carries the known-finding signature"],
+    ),
+    "C05": dict(
+        level="exploration",
+        rule="every derivation of G with at most d deviations; the generator marks statement-list members, declaration members, "
+             "block openers/closers, control statements and body begins; the oracle maps marks to output tokens by ordinal (after "
+             "the C02 oracle accepted the case) and checks first-on-line and indentation relative to the opener's line; "
+             "non-trivial = at least one placement checked",
+        bounds={"quick": "progs(d<=2) x {L0,L1,L2} x 5 configs with wrap_column >= 30",
+                "thorough": "progs(d<=3) x bases x 3 configs; progs(d<=2) x bases and single gap flips x covering-array rows with wrap_column >= 30"},
+        assumptions=WF_ASSUME + ["wrap_column >= 30 only: at narrower widths block-opening headers are themselves broken over lines",
+                                 "an anonymous routine that the formatter keeps inline (opener not first on its line) is not a rendered block; an empty statement ';' is not a list member"],
+    ),
+    "C06": dict(
+        level="exploration",
+        rule="for every derivation of G (<= d deviations) the base layouts L0/L1/L2 must format identically, and so must every "
+             "re-layout of L0 within the stated deviation bound (single gaps: 6 alternative spellings incl. no blank where tokens do "
+             "not glue, tab, 3 spaces, newline+indent; pairs of gaps flipped; all 2^g space/newline assignments for g <= bound); same "
+             "for the well-formed seeds. Gaps touching comments/directives, verbatim units, asm lines and blank-line groups are kept. "
+             "Each re-layout is re-scanned with R and rejected if its tokens differ. non-trivial = re-layout differs from the base text",
+        bounds={"quick": "progs(d<=2) x singles x 3 configs; wf seeds x singles x 2 configs",
+                "thorough": "progs(d<=2) x singles+pairs+all 2^g (g<=12) x 6 configs; progs(d<=3) x singles x 2 configs; wf seeds x singles+2^g (g<=10) x 6 configs"},
+        assumptions=WF_ASSUME,
+    ),
+    "C09": dict(
+        level="exploration",
+        rule="every soup/char string and program x {lf, crlf} x other settings; for programs and seeds additionally input "
+             "line endings all-LF, all-CRLF, every single terminator flipped and every pair (<= 8 lines); clauses (i)-(iii) of the "
+             "property evaluated token-wise with verbatim units masked; non-trivial = lf and crlf outputs differ or an input-ending pair was compared",
+        bounds={"quick": "soup(k<=2) x 2; chars(<=3) x 2; progs(d<=1) L0+L2 x 4 configs; all seeds x 2",
+                "thorough": "soup(k<=2) x 4; chars(<=4) x 2; progs(d<=2) L0+L2 x 4; all seeds x 4 with pairs"},
+        assumptions=UNIVERSAL_ASSUME + ["lone CR as an input line break is outside the property's quantifier"],
+    ),
+    "C10": dict(
+        level="exploration",
+        rule="every program/seed x tab_width set x continuation_indents set x use_tabs {t,f}, wrap_column = u32::MAX; tabs result with "
+             "leading tabs replaced by tab_width spaces must equal the spaces result (lines inside verbatim tokens excluded; "
+             "configurations with ci*tw > 255 only run, not compared); tab counts must be linear in continuation_indents per line",
+        bounds={"quick": "progs(d<=1) x 2 base configs x tw{0,1,2,4,8,85} x ci{0,1,2,3}; wf seeds x 1 base",
+                "thorough": "progs(d<=2) x 2 bases x tw{0,1,2,3,4,8,16,17,85,127,128,255} x ci{0,1,2,3,15,16,127,255}; wf seeds x 2 bases"},
+        assumptions=WF_ASSUME,
+    ),
+    "C11": dict(
+        level="exploration",
+        rule="every program/seed (ASCII, no multi-line tokens) formatted at every width of the set; all pairs W1 < W2 checked for the "
+             "three clauses; non-trivial = some pair of outputs differs",
+        bounds={"quick": "progs(d<=2) L1 x widths {16,24,30,60,120,200} (15 pairs) x 2 configs; wf seeds x 2 configs",
+                "thorough": "progs(d<=3) x 13 widths (78 pairs) x 2 configs; wf seeds x 4 configs"},
+        assumptions=WF_ASSUME + ["width = bytes per line, the wrapper's own measure"],
+    ),
+})
+CHECKS["C01"]["bounds"]["quick"] += "; progs(d<=1) x comment+directive variants x 2 configs"
+CHECKS["C08"]["bounds"]["quick"] += "; end-of-file clause: progs(d<=2) x bases x 6 configs, wf seeds x 6"
+CHECKS["C13"]["bounds"]["quick"] += "; progs(d<=1) variants and all seeds: input and formatted output"
+CHECKS["C14"]["bounds"]["quick"] += "; well-formed clauses: progs(d<=2) bases, progs(d<=1) all variants, wf seeds"
+
 
 def replay_python(case):
     print("no python replays registered")
